@@ -4,6 +4,8 @@ import (
 	"bytes"
 	"io"
 
+	"github.com/acarl005/stripansi"
+	"github.com/mattn/go-runewidth"
 	"github.com/vbauerster/mpb/v8/decor"
 )
 
@@ -78,12 +80,24 @@ func BarFillerOnComplete(message string) BarOption {
 	return BarFillerMiddleware(func(base BarFiller) BarFiller {
 		return BarFillerFunc(func(w io.Writer, st decor.Statistics) error {
 			if st.Completed {
-				_, err := io.WriteString(w, message)
+				_, err := io.WriteString(w, clipMessage(message, st.AvailableWidth))
 				return err
 			}
 			return base.Fill(w, st)
 		})
 	})
+}
+
+// clipMessage cuts message to the available width, the way decorators
+// that do not fit are cut.
+func clipMessage(message string, width int) string {
+	if runewidth.StringWidth(message) <= width {
+		return message
+	}
+	if width <= 0 {
+		return ""
+	}
+	return runewidth.Truncate(stripansi.Strip(message), width, "…")
 }
 
 // BarFillerClearOnAbort clears bar's filler on abort event.
@@ -97,7 +111,7 @@ func BarFillerOnAbort(message string) BarOption {
 	return BarFillerMiddleware(func(base BarFiller) BarFiller {
 		return BarFillerFunc(func(w io.Writer, st decor.Statistics) error {
 			if st.Aborted {
-				_, err := io.WriteString(w, message)
+				_, err := io.WriteString(w, clipMessage(message, st.AvailableWidth))
 				return err
 			}
 			return base.Fill(w, st)
